@@ -69,12 +69,12 @@ The audit streams use the model comparison too wherever the case is in the model
 the variations do not change what the model sees except the list text / names, which are sent as written); kind ids
 is judged by the label oracle alone.
 
-FINDING F1 (genuine defect of the unchanged code, found by cli-duplicate-labels): when the ids of a signature file or
-of the database are INTEGERS and one value occurs twice, `gambit dist` dies with
+FINDING F1 (genuine defect of the code as found, found by cli-duplicate-labels, repaired by a fix: commit,
+repo_fixes/C16-dup-int-ids.diff): when the ids of a signature file or of the database are INTEGERS and one value
+occurred twice, `gambit dist` died with
     TypeError: sequence item 0: expected str instance, numpy.int64 found
-in gambit/cli/common.py warn_duplicate_file_ids (', '.join(duplicates)); with repeated string ids it prints the
-warning and writes the matrix.  Minimal fix: ', '.join(map(str, duplicates)).  The stream keeps generating the input;
-k_cli does not report exactly this (input class, failure) pair (counter finding:F1-...; VERIF_C16_STRICT=1 reports it)."""
+in gambit/cli/common.py warn_duplicate_file_ids (', '.join(duplicates)); with repeated string ids it printed the
+warning and wrote the matrix.  The stream keeps generating the input and it is judged like every other case."""
 import csv
 import gzip
 import os
@@ -654,13 +654,6 @@ def k_cli(ctx, cases):
 		desc = f'gambit dist [{ways[0]} x {ways[1]}] k/prefix={"given" if case.get("kopt") else "implied"} cores={case.get("cores")}'
 		if variant(case):
 			desc += f' variation={variant(case)}'
-		if exp[0] == 'ok' and dup_int_ids(case) and obs[0] == 'raised' and obs[1] == 'TypeError' and 'expected str instance' in obs[2] \
-				and not os.environ.get('VERIF_C16_STRICT'):
-			# GENUINE DEFECT of the unchanged code, recorded in the module docstring (finding F1): not reported again,
-			# for exactly this input class and this failure; VERIF_C16_STRICT=1 reports it as a violation
-			ctx.count('finding:F1-dup-int-ids (TypeError in warn_duplicate_file_ids; not reported)')
-			ctx.extra['finding_F1'] = 'dist crashes (TypeError in warn_duplicate_file_ids) when integer ids of a signature file / database repeat; suppressed for exactly that input class'
-			continue
 		if exp[0] == 'ok':
 			if obs != exp:
 				what = _first_diff(obs, exp)
@@ -1263,7 +1256,7 @@ def dup_side(rng, way, pick, pool):
 			return {'files': ent}
 		return {'files': [], 'list': {'text': make_list(rng, ent, 0), 'fs': uniq}}
 	if rng.random() < 0.2:
-		# integer ids that repeat: finding F1 (see module docstring)
+		# integer ids that repeat (finding F1, repaired; see module docstring)
 		return {'files': [], 'sigs': {'items': [[str(rng.choice([3, 3, 11])), pick()] for _ in range(n + 1)], 'int_ids': True}}
 	ids = [rng.choice(pool + [pool[0] + '.fa']) for _ in range(n)]
 	return {'files': [], 'sigs': {'items': [[i, pick()] for i in ids]}}
